@@ -45,6 +45,10 @@ CHECKS = {
    technique='model-based property testing with bounded-exhaustive operation sequences (orphan pool, in-flight table, header map) and random sequences beyond; skip-list ancestors vs naive parent walk',
    text='Each structure is driven by generated and exhaustively enumerated short operation sequences against a simple mathematical model (set of (hash,parent), per-peer map, HashMap, parent-pointer walk), compared after every operation; locator/ancestor queries also on a real node.',
    note='Exhaustive parts cover sequences up to length 6 over 4 hashes / 2 peers; spills are placed between operations as the statement says (concurrent spills are outside the quantifier).'),
+ 'C18': dict(level='exploration', ref='DESIGN.md §2 C18',
+   technique='model-based property testing: append/rollback walks with reorgs on the real RocksDB indexer (and the real sync loop on a node) vs a brute-force filter over the reference chain; rollback-inverse metamorphic relation on answers and raw rows',
+   text='Generated chain walks with reorgs over a script universe built to collide (shared code hashes, args that are prefixes of one another, empty and zero args) drive the real indexer; after every append and rollback the indexer tip and a battery of get_cells / get_transactions / get_cells_capacity queries (all filters, both orders, page sizes 1..5 with cursor chaining) are compared with a brute-force filter over the model; append followed by rollback must restore every answer and the query-visible raw rows.',
+   note='Scope is the RocksDB indexer; the rich-indexer (sqlite) is not attached. One genuine defect (prefix search false positive caused by the key layout) is tolerated as a known finding by exactly its predicate.'),
 }
 NOT_YET = 'check not built yet in this round (see DESIGN.md §5 build order); no claim is made'
 
